@@ -215,5 +215,103 @@ def reopen (f : AHTFile D) (syncThld : Nat) : AHTFile D :=
   let f' := f.sync
   ⟨f'.persisted, f'.persisted, 0, syncThld⟩
 
+/-! Operations that RETURN AN ERROR because a call on one of the underlying logs failed (fsync / flush /
+write / set-offset / read error).  Mirrors of the error paths of the Go code:
+
+* `Append`: every `return` on an error lies before the three size updates at the end of the function
+  (`pLogSize`, `dLogSize`, `cLogSize` += …); the only other field touched on the failing path,
+  `cLogBufCount`, is decremented again when the threshold-triggered `sync()` fails.  `latestSyncedNode`
+  is advanced only at the very end of a successful `sync()`.  So a failed `Append` is the identity on
+  this model's state (bytes written beyond `pLogSize`/`dLogSize` are overwritten by the next `Append`,
+  which starts with `SetOffset` – below the abstraction of this model).
+* `Sync`: `latestSyncedNode`/`cLogBufCount` change only on success: identity.
+* `ResetSize`: fails either in its own `sync()` (identity) or afterwards (`cLog.ReadAt`, `pLog.Size`,
+  `dLog.Size`, corrupted-size checks), all before the sizes are assigned: the tree is unchanged, the
+  buffered entries have been synced (`synced = true`). -/
+def appendFail (f : AHTFile D) (_d : Bytes) : AHTFile D := f
+
+def syncFail (f : AHTFile D) : AHTFile D := f
+
+def resetFail (f : AHTFile D) (_m : Nat) (synced : Bool) : AHTFile D :=
+  if synced then f.sync else f
+
+end AHTFile
+
+/-! ### Histories with failing operations
+
+`AHT.Op` is one step of a tree's life as its caller sees it; `AHT.run` executes a history on the tree
+model, `AHT.survivors` on the abstract list of leaves (the specification: a failed operation leaves the
+list as it was, a reset keeps a prefix). -/
+namespace AHT
+variable {D : Type}
+
+inductive Op
+  | append (d : Bytes)
+  | appendFail (d : Bytes)
+  | reset (m : Nat)
+  | resetFail (m : Nat)
+  | syncFail
+  deriving Repr
+
+/-- one step on the tree model; `none` = the model's append is stuck (never: `aht_history`) or the reset
+is refused (`ErrCannotResetToLargerSize`). -/
+def stepOp (mh : MH D) (t : AHT D) : Op → Option (AHT D)
+  | .append d => append mh t d
+  | .appendFail _ => some t
+  | .reset m => resetSize t m
+  | .resetFail _ => some t
+  | .syncFail => some t
+
+def run (mh : MH D) (t : AHT D) : List Op → Option (AHT D)
+  | [] => some t
+  | o :: os => (stepOp mh t o).bind (run mh · os)
+
+/-- the same step on the abstract list of successfully appended, not rolled-back payloads -/
+def survStep (xs : List Bytes) : Op → Option (List Bytes)
+  | .append d => some (xs ++ [d])
+  | .appendFail _ => some xs
+  | .reset m => if xs.length < m then none else some (xs.take m)
+  | .resetFail _ => some xs
+  | .syncFail => some xs
+
+def survivors (xs : List Bytes) : List Op → Option (List Bytes)
+  | [] => some xs
+  | o :: os => (survStep xs o).bind (survivors · os)
+
+end AHT
+
+/-- The file-level operations (what the driver executes), with the projection to `AHT.Op`. -/
+inductive AHTFile.FOp
+  | append (d : Bytes)
+  | appendFail (d : Bytes)
+  | reset (m : Nat)
+  | resetFail (m : Nat) (synced : Bool)
+  | sync
+  | syncFail
+
+namespace AHTFile
+variable {D : Type}
+
+def stepF (mh : MH D) (f : AHTFile D) : FOp → Option (AHTFile D)
+  | .append d => f.append mh d
+  | .appendFail d => some (f.appendFail d)
+  | .reset m => f.resetSize m
+  | .resetFail m s => some (f.resetFail m s)
+  | .sync => some f.sync
+  | .syncFail => some f.syncFail
+
+def runF (mh : MH D) (f : AHTFile D) : List FOp → Option (AHTFile D)
+  | [] => some f
+  | o :: os => (stepF mh f o).bind (runF mh · os)
+
+/-- what the operation is for the tree itself (`sync` does not touch it) -/
+def FOp.toOp : FOp → Option AHT.Op
+  | .append d => some (.append d)
+  | .appendFail d => some (.appendFail d)
+  | .reset m => some (.reset m)
+  | .resetFail m _ => some (.resetFail m)
+  | .sync => none
+  | .syncFail => some .syncFail
+
 end AHTFile
 end ImmuModel.Merkle
